@@ -15,6 +15,8 @@ import (
 	"strings"
 
 	"golang.org/x/tools/go/ssa"
+
+	"verifchecker/internal/engine"
 )
 
 type kind int
@@ -58,7 +60,7 @@ func (v Val) String() string {
 	case kNonNil:
 		return "non-nil"
 	case kFunc:
-		return "func:" + v.Fn.Name()
+		return "func:" + engine.ShortName(v.Fn)
 	case kTuple:
 		var p []string
 		for _, e := range v.Elems {
@@ -202,7 +204,7 @@ func (it *Interp) eval(fn *ssa.Function, args []Val, free []Val) (Val, bool) {
 	r := &result{busy: true}
 	it.memo[k] = r
 	it.Evals++
-	desc := fn.Name()
+	desc := engine.ShortName(fn)
 	var bd []string
 	for i, a := range args {
 		if a.K != kUnknown && a.K != kUnset && i < len(fn.Params) {
